@@ -37,6 +37,7 @@ CONSTANTS MaxSize,      \* pool size (1 | 2)
           Dev           \* named deviations (subset of Deviations); {} = the code as it is
 
 Deviations == {"NoProbe",            \* _get_conn skips is_connection_dropped / it always says False
+               "ProbeEofOnly",       \* is_connected peeks: pending DATA counts as connected, only EOF as dropped
                "NoCloseOnUnclean",   \* _error_catcher does not close the connection on unclean exit
                "NoDiscardOnError",   \* urlopen does not discard the connection after ProtocolError
                "RawNotReady",        \* HTTPException missing from urlopen's except tuple
@@ -179,7 +180,8 @@ StartReq ==
     /\ UNCHANGED <<netv, resp, outcome, opres, yl, clean, hist>>
 
 \* _get_conn: LIFO get (never blocks: block=False), then the dropped-connection probe
-Readable(s) == kb[s] # <<>> \/ peof[s]
+Readable(s) == kb[s] # <<>> \/ peof[s]              \* data pending in the kernel buffer, or EOF pending
+ProbeDropped(s) == IF "ProbeEofOnly" \in Dev THEN kb[s] = <<>> /\ peof[s] ELSE Readable(s)
 Checkout ==
     /\ pc = "checkout"
     /\ IF queue = <<>> THEN /\ cs' = 0 /\ UNCHANGED <<queue, cli, prior, resp, probes>>
@@ -188,7 +190,7 @@ Checkout ==
             IF item = 0 THEN /\ cs' = 0 /\ Commit(q2) /\ UNCHANGED probes
             ELSE IF "NoProbe" \in Dev
                  THEN /\ cs' = (IF cli[item] = "open" THEN item ELSE 0) /\ Commit(q2) /\ UNCHANGED probes
-                 ELSE LET dropped == cli[item] # "open" \/ Readable(item) IN
+                 ELSE LET dropped == cli[item] # "open" \/ ProbeDropped(item) IN
                       /\ probes' = Append(probes, [s |-> IF cli[item] = "open" THEN item ELSE 0,
                                                    res |-> IF dropped THEN "dropped" ELSE "alive"])
                       /\ IF dropped THEN cs' = 0 /\ Commit(CloseIn(q2, item))
